@@ -16,7 +16,7 @@
                                          to a value of the wrong kind (the spurious parameter picks up an
                                          unrelated variable of the same name) and the source has a goto
                                          whose annotation differs from its label's type,
-        VIOL class=call-to-main          (REPAIRED in /repo by <commitmain>, no longer a known finding: a recurrence is a plain
+        VIOL class=call-to-main          (REPAIRED in /repo by f929eb7, no longer a known finding: a recurrence is a plain
                                          VIOLATION; the tag only describes it) when some call targets `main` ([calls_main_prog]:
                                          compile_main gives main no return continuation, the call
                                          site passes one),
